@@ -16,8 +16,15 @@ TEXT_CHUNKS = (b"", b"1", b"22", "é".encode("utf8"), b"line\n")
 BIN_CHUNKS = (b"", b"\xff\x00", b"1", b"\xc3")
 
 
+OTHER_TZ = datetime.timezone(datetime.timedelta(hours=5, minutes=30))
+
+
 def ts(k):
-    return None if k is None else datetime.datetime(2000, 1, 1, 0, 0, k, tzinfo=UTC)
+    if k is None:
+        return None
+    if k == "tz":      # an aware timestamp that is not in UTC
+        return datetime.datetime(2000, 1, 1, 12, 0, 7, tzinfo=OTHER_TZ)
+    return datetime.datetime(2000, 1, 1, 0, 0, k, tzinfo=UTC)
 
 
 ROUTE = st.one_of(st.none(), st.lists(st.sampled_from(["0", "1", "x"]), min_size=1, max_size=3).map("/".join))
@@ -27,13 +34,13 @@ TAGS = st.one_of(st.none(), st.none(),
 
 
 @st.composite
-def event(draw, ids=(None, "a", "b", "c"), routes=ROUTE, statuses=INTERIM + INTERIM + FINAL, tags=TAGS):
+def event(draw, ids=(None, "a", "b", "c"), routes=ROUTE, statuses=INTERIM + INTERIM + FINAL, tags=TAGS, stamps=(None, 0, 1, 2, 3, 5)):
     ev = {"test_id": draw(st.sampled_from(ids)),
           "test_status": draw(st.sampled_from(statuses)),
           "test_tags": draw(tags),
           "runnable": draw(st.sampled_from([True, True, False])),
           "route_code": draw(routes),
-          "timestamp": draw(st.sampled_from([None, 0, 1, 2, 3, 5])),
+          "timestamp": draw(st.sampled_from(stamps)),
           "file_name": None, "file_bytes": None, "eof": False, "mime_type": None}
     if draw(st.integers(0, 2)) == 0:
         if draw(st.booleans()):
